@@ -121,7 +121,7 @@ where
     Client::new(mk_auth(store, uv, cfg)).allows_insecure_localhost(org == Org::Localhost)
 }
 
-fn with_origin<R>(org: Org, f: impl FnOnce(Origin<'_>) -> R) -> R {
+pub fn with_origin<R>(org: Org, f: impl FnOnce(Origin<'_>) -> R) -> R {
     match org.url() {
         Some(u) => f(Origin::Web(std::borrow::Cow::Owned(u))),
         None => {
